@@ -131,6 +131,26 @@ def _queries(thr, targets):
     qs["auc/partial"] = lambda s: float(s.auc(lower=0.125, upper=0.75))
     qs["auc/fnr-fpr"] = lambda s: float(s.auc(x_axis="fnr", y_axis="fpr"))
     qs["swap.cm"] = lambda s: s.swap().cm(thr).matrix
+
+    # bootstrap queries under a fixed global seed (same RNG stream for both objects), incl. kernel smoothing, which
+    # moves scores near 0 or 1 slightly outside [0, 1]
+    def boot(kind, **cfg):
+        def q(s):
+            from score_analysis import BootstrapConfig
+            np.random.seed(20240)
+            c = BootstrapConfig(nb_samples=3, **cfg)
+            if kind == "sample":
+                b = s.bootstrap_sample(c)
+                return (np.asarray(b.pos, dtype=float), np.asarray(b.neg, dtype=float), int(b.nb_easy_pos), int(b.nb_easy_neg))
+            if kind == "metric":
+                return np.asarray(s.bootstrap_metric("fnr", config=c, threshold=0.5), dtype=float)
+            return np.asarray(s.bootstrap_ci("fnr", config=c, threshold=0.5), dtype=float)
+        return q
+    qs["bootstrap_sample/replacement"] = boot("sample", sampling_method="replacement")
+    qs["bootstrap_sample/smoothing"] = boot("sample", sampling_method="replacement", smoothing=True)
+    qs["bootstrap_sample/by_label"] = boot("sample", sampling_method="replacement", stratified_sampling="by_label")
+    qs["bootstrap_metric/smoothing"] = boot("metric", sampling_method="replacement", smoothing=True)
+    qs["bootstrap_ci/quantile"] = boot("ci", sampling_method="replacement", bootstrap_method="quantile", smoothing=True)
     for name in ("hard_pos_ratio", "hard_neg_ratio", "easy_pos_ratio", "easy_neg_ratio", "nb_easy_samples", "nb_hard_pos",
                  "nb_hard_neg", "nb_hard_samples", "nb_all_pos", "nb_all_neg", "nb_all_samples", "easy_ratio", "hard_ratio"):
         qs[name] = (lambda s, name=name: getattr(s, name))
